@@ -13,6 +13,11 @@ static inline int ABTI_ktable_set(ABTI_global *p_global, ABTI_local *p_local, AB
 __CPROVER_assigns(vf_set_n, vf_set_slot, vf_set_k1, vf_set_val)
 __CPROVER_ensures(vf_set_n == __CPROVER_old(vf_set_n) + 1 && vf_set_slot == VF_SLOT(pp_ktable) && vf_set_k1 == (p_key == &k1) && vf_set_val == (uintptr_t)value)
 __CPROVER_ensures(__CPROVER_return_value == (vf_set_fail ? ABT_ERR_MEM : ABT_SUCCESS));
+/* the public key API must go through the locking variant: another work unit may store a value for THIS unit at the same time
+ * (ABT_thread_set_specific), so a table created or extended without the per-unit creation lock / table lock loses one of the stores */
+static inline int ABTI_ktable_set_unsafe(ABTI_global *p_global, ABTI_local *p_local, ABTI_ktable **pp_ktable, ABTI_key *p_key, void *value)
+__CPROVER_requires(0 && "the unsafe (unlocked) key-table store is not used by ABT_key_set / ABT_self_set_specific / ABT_thread_set_specific")
+__CPROVER_assigns() __CPROVER_ensures(__CPROVER_return_value == ABT_SUCCESS);
 static inline void *ABTI_ktable_get(ABTD_atomic_ptr *pp_ktable, ABTI_key *p_key)
 __CPROVER_assigns(vf_get_n, vf_get_slot, vf_get_k1)
 __CPROVER_ensures(vf_get_n == __CPROVER_old(vf_get_n) + 1 && vf_get_slot == VF_SLOT(pp_ktable) && vf_get_k1 == (p_key == &k1))
